@@ -72,11 +72,11 @@ PROPS = {
         assumptions=["ExtOK: ext.itoa n = Spec.Number.decimal n; finite floats: Grammar.IsNumber (ext.ryu64 b) / (ext.ryu32 b)",
                      "programs obey the serde contract on length hints (None or Some(exact)); type names are not the private "
                      "$serde_json::private::Number / RawValue tokens (feature-gated special cases, out of scope except Number's own impl)",
-                     "collect_str's Display writes its text in one write_str call (buffer-level statements only)"],
+                     "collect_str's Display writes its text in one write_str call (buffer-level statements only)",
+                     "c03_utf8: the program's strings are UTF-8 (SVal.utf8OK: every &str payload valid, every char a scalar value — what "
+                     "Rust's types guarantee) and the pretty indent string is valid UTF-8"],
         partial=["c03_display_partial: Display/{:#} are the two serializers by definition in the model; the fmt adapter is covered by "
-                 "the correspondence op `disp` only",
-                 "c03_utf8_partial: proved per string (every buffer of format_escaped_str is ASCII or a fragment cut at ASCII bytes); "
-                 "lift to whole programs and a ValidUtf8 conclusion pending the shared Spec.Utf8"],
+                 "the correspondence op `disp` only"],
         technique="Lean 4 theorems over all serializer programs: the transcription of Serializer/Compound/MapKeySerializer with both "
                   "Formatters (exact write_all buffer lists, State / current_indent / has_value bookkeeping) refines a structural "
                   "printer of the data-model image; the printer's output is derivable in the RFC 8259 grammar and denotes the image; "
@@ -85,13 +85,17 @@ PROPS = {
                    "c03_no_underflow, c03_recognise_sound) state for every serializer program with exact-or-absent length hints and every indent string "
                    "that the modelled serializer either fails exactly when a map key is not string-like (same error class) or emits "
                    "buffers whose concatenation equals the structural compact/pretty layout of the program's data-model image, which "
-                   "is derivable in the RFC 8259 grammar and denotes that image; hints do not change the buffers. The byte strings "
+                   "is derivable in the RFC 8259 grammar and denotes that image; hints do not change the buffers; and (c03_utf8, with the "
+                   "per-string form c03_utf8_fragments) for every program whose strings are UTF-8 and either formatter (pretty: any "
+                   "UTF-8 indent) every single buffer handed to the writer, and the whole output, is valid UTF-8 (Spec.Utf8.validUtf8): "
+                   "formatter literals ASCII by evaluation of the extracted constants, itoa/ryu text ASCII because it is a number, "
+                   "string buffers cut only at ASCII bytes. The byte strings "
                    "written by Formatter/PrettyFormatter are re-extracted from src/ser.rs on every run and the model is compared with "
                    "the real crate buffer by buffer on generated programs in four feature configurations, the crate's bytes being "
                    "re-parsed by an independent recogniser and compared with the image.",
         level_note="Trusted: Lean kernel + propext/Classical.choice/Quot.sound; extract.py; harness/driver comparison; itoa/ryu as "
                    "assumed parameters; serde default methods by documented semantics. Partial: Display adapter (correspondence "
-                   "only), UTF-8 validity (per string only).",
+                   "only).",
     ),
     "C17": dict(
         lean_targets=["SJ.Props.C17", "SJ.Audit.C17"],
@@ -265,7 +269,10 @@ PROPS["C10"] = dict(
     assumptions=["raw values as typed targets are covered by correspondence only (C19); the typed theorems are about the universal "
                  "seed's schema universe (harness/src/schema.rs), whose visitors are transcribed in SJ/Model/FromValue.lean",
                  "std io::Bytes semantics"],
-    partial=["c10_prefix_value_partial: the Value-target theorem carries the exception c = NumberOutOfRange (prefix = complete out-of-range number literal) — open known finding C10-out-of-range-number-prefix",
+    partial=["the Value-target statement has one exception, which is a genuine deviation of the crate and not a gap of the proof: a prefix "
+             "that is a complete out-of-range number literal fails with NumberOutOfRange (open known finding "
+             "C10-out-of-range-number-prefix); c10_prefix_value_exact characterises it exactly on the machine state and "
+             "c10_prefix_value_ap shows it cannot occur under arbitrary_precision",
              "c10_typed_prefix_partial: for schemas containing an f64 / f32 / Value target the typed theorem carries the same inherent "
              "NumberOutOfRange exception (a prefix can be a complete out-of-range float literal); c10_typed_prefix has no exception "
              "for every other schema (128-bit integers and all key kinds included)",
@@ -274,7 +281,11 @@ PROPS["C10"] = dict(
               "against the classify arms regenerated from error.rs) + differential prefix sweep against the crate",
     level_text="Machine-checked: for the Value and IgnoredAny targets, in every feature configuration and for every input source, "
                "every prefix of an accepted text is accepted or fails at the end of the prefix with an Eof-classified error "
-               "(c10_prefix_ignored; c10_prefix_value_partial with the single inherent NumberOutOfRange exception made explicit). "
+               "(c10_prefix_ignored for skipped content; c10_prefix_value_ap for Value under arbitrary_precision: pure Eof; "
+               "c10_prefix_value_exact for Value in general: the single other outcome is NumberOutOfRange at the end of the prefix, and "
+               "then the machine state reached after the prefix is a number state in a final phase — the prefix ends in a complete "
+               "number literal — whose conversion numValue fails; conversely every such state is rejected that way, "
+               "c10_number_exception; witnessed by 1 followed by 400 zeros, a prefix of the accepted 10…0e-395). "
                "Typed targets: c10_typed_prefix — for every schema of the typed universe without a float / Value site (bool, twelve "
                "integer widths incl. 128-bit, char, strings, bytes, option, unit, newtype, seq, tuple, maps with every key kind, "
                "structs, enums, IgnoredAny), every configuration and source, a proper prefix of a text accepted by the typed "
@@ -425,9 +436,7 @@ PROPS["C13"] = dict(
     assumptions=["io::Bytes retries Interrupted and yields bytes in order; Write::write_all loops over short writes and retries "
                  "Interrupted (std) — exercised by the harness, not modelled",
                  "typed targets are judged by the property's predicate against the same bytes followed by a clean end of input"],
-    partial=["whole-program lift of 'every buffer is valid UTF-8 on its own' (c03_utf8_partial + c05_escape_buffers_utf8_cut give it per "
-             "string; the correspondence checks every recorded buffer with Spec.Utf8.validUtf8)",
-             "typed targets: c13_typed_fault gives the outcome class (Io, or an error / visitor error located within the delivered "
+    partial=["typed targets: c13_typed_fault gives the outcome class (Io, or an error / visitor error located within the delivered "
              "bytes, never a value) but does not state that the non-Io outcome equals the clean-end-of-input run's; that equality is "
              "checked per case by op rfaults"],
     technique="Lean 4 theorems: a reader fault instead of end of input turns the fold's finish into Io unless a delivered byte was "
@@ -436,7 +445,10 @@ PROPS["C13"] = dict(
     level_text="Machine-checked: c13_read (reader failing after bs: the result is Io iff no delivered byte is rejected, else exactly the "
                "error those bytes produce from any source), c13_read_error_class (that error is Syntax-classified and positioned "
                "within the delivered bytes; never a value, never Eof), c13_write_prefix / c13_write_is_prefix (accepted bytes are the "
-               "first m bytes of the fault-free output; failure iff m < length), c13_typed_fault (typed deserializer of any schema over "
+               "first m bytes of the fault-free output; failure iff m < length), c13_buffers_utf8 (for every program whose strings are UTF-8 "
+               "and either formatter, every buffer passed to write_all is valid UTF-8 on its own, hence so is what a writer holds after "
+               "any number of whole buffers; the correspondence also checks every recorded buffer of the crate with "
+               "Spec.Utf8.validUtf8), c13_typed_fault (typed deserializer of any schema over "
                "a reader that fails after bs: never a value — Io, or a syntax / visitor error positioned inside bs). The crate is run with readers failing at every "
                "byte and writers failing after every byte count, with chunking, short writes and Interrupted.",
     level_note="Trusted: Lean kernel + 3 standard axioms; extract.py; harness/driver; machine and serializer models. std::io retry "
@@ -690,13 +702,9 @@ PROPS["C15"] = dict(
                  "float comparison (floatsRT): every finite f64 serialised as a value is read back from its printed text as the same "
                  "double — C07 + ryu correctness under float_roundtrip, short literals (<= 15 digits, |exp| <= 22) by default (C08), "
                  "vacuous under arbitrary_precision; the correspondence compares exactly under fr/ap/short and with floats erased otherwise",
-                 "ParserComplete (only for c15_agree_of_parser): the &str parser returns canon(t) on every derivable text within its "
-                 "side conditions — C01 completeness + C02, proved on the parser branches"],
-    partial=["c15_keys_partial: agreement of the two key serializers is proved for keys that do not reach serialize_some; for Some(_) "
-             "keys the pinned sources differ (c15_some_key_disagrees, c15_key_dispatch; known finding C15-some-key) and all agreement "
-             "theorems carry the hypothesis hasSomeKey p = false",
-             "c15_agree_partial: to_value p = canon (the syntax tree of to_string (widenF32 p)); 'equals the Value obtained by parsing' "
-             "needs the named hypothesis ParserComplete (c15_agree_of_parser) and the parser's side conditions (nesting <= 127)"],
+                 "c15_agree: the printed value nests at most 127 deep (SVal.nest p <= 127) unless the recursion limit is off; for byte "
+                 "sources the Rust string invariant SVal.utf8OK p (every &str handed over is UTF-8, every char a scalar value)"],
+    partial=[],
     technique="Lean 4 theorems over all serializer programs: the transcription of value::Serializer / SerializeVec / SerializeMap / "
               "SerializeTupleVariant / SerializeStructVariant / value::ser::MapKeySerializer / Number::from_* is related by one mutual "
               "induction to the data-model image that the text serializer is proved (C03) to print; the dispatch tables of both "
@@ -708,16 +716,18 @@ PROPS["C15"] = dict(
                "128-bit integers outside [i64::MIN, u64::MAX] without arbitrary_precision, which fail with NumberOutOfRange "
                "(c15_success_iff, c15_128_error); both fail with the same error class (c15_error_iff); on success the result is the "
                "Value denoted — under the parser's own classification rules — by the same data-model image that to_string is proved "
-               "to print, with f32 widened (c15_value_is_image, c15_valueOfImage_is_canon, c15_agree_partial). The two key serializers "
-               "agree on every key that does not reach serialize_some (c15_keys_partial); for Some(_) keys the pinned tree deviates — "
-               "kernel-checked counter-example c15_some_key_disagrees, reproduced on the crate (known finding C15-some-key) — and the "
-               "agreement theorems exclude such programs. The key-serializer dispatch tables are regenerated from the source each "
+               "to print, with f32 widened (c15_value_is_image, c15_valueOfImage_is_canon), and it is exactly the Value obtained by parsing "
+               "to_string of the f32-widened data, from every input source (c15_agree: parser completeness is the theorem parserComplete, "
+               "from C01 c01_complete_value and C02 c02_canonM_eq_canon; the printed tree's side conditions are derived from the "
+               "program: depth = SVal.nest <= 127, no \\u escape but \\u00XX, strings UTF-8 from SVal.utf8OK, numbers in range because "
+               "the value exists). The two key serializers agree on every key program, Some(_) keys included (c15_keys; the former "
+               "deviation C15-some-key is fixed in /repo). The key-serializer dispatch tables are regenerated from the source each "
                "run and tied to the models (c15_key_dispatch); the model is compared with serde_json::to_value on generated "
                "programs and the property's statement is evaluated on the crate's own outputs.",
     level_note="Trusted: Lean kernel + propext/Classical.choice/Quot.sound; extract.py; harness/driver comparison; itoa/ryu as assumed "
                "parameters; C03's model of the text serializer; BTreeMap/IndexMap insert semantics; Model.Num as the parser's number "
-               "semantics. Partial: Some(_) map keys (genuine deviation of the pinned tree, open finding); equality with the *parsed* "
-               "Value is conditional on parser completeness (C01/C02); f64 equality under the stated float proviso.",
+               "semantics. f64 equality under the stated float proviso (floatsRT); agreement with the parsed Value for programs whose "
+               "printed value nests at most 127 deep (sharp: progDeep in SJ/Props/C15.lean).",
 )
 
 PROPS["C04"] = dict(
@@ -755,13 +765,8 @@ PROPS["C04"] = dict(
              "floats: c04_value takes the hypothesis FloatsRoundTrip cfg ext v (for every Float in v, parsing the text ryu prints gives that "
              "Float back); it is discharged by C07 (float_roundtrip) / C08 (short literals), not here; c04_value_nofloat and c04_value_ap "
              "need no such hypothesis",
-             "c04_wf_of_parse_partial: every value returned by the parser satisfies WFValue — proved for byte sources (from_slice/"
-             "from_reader) under the hypothesis that the floats of the returned value are finite (c04_wf_of_parse_finite: or that the "
-             "configured conversion returns finite floats only — C07/C08's finiteness clause, a statement about Spec.Ieee rounding not "
-             "proved here); unconditional under arbitrary_precision (c04_wf_of_parse_ap); for &str input the same with the hypothesis that "
-             "the input is valid UTF-8, which the type &str guarantees (c04_wf_of_parse_str_partial / _str_finite / _str_ap, "
-             "c04_reparse_str_partial)",
-             "c04_reparse_partial (from_slice(to_vec(from_slice(bs))) = from_slice(bs)) inherits both float hypotheses"],
+             "c04_reparse: serialise-then-parse of a parsed value gives it back under the same float hypothesis FloatsRoundTrip (none "
+             "under arbitrary_precision: c04_reparse_ap); that parsed values are well-formed is now hypothesis-free (c04_wf_of_parse)"],
     technique="Lean 4 theorems obtained by composing the Value fragment of C03 (serializer output = one RFC 8259 value with syntax tree "
               "cstOf(image); re-proved layout-independently: the extracted formatter literals need only be their structural character plus "
               "JSON whitespace, so a harmless change of the pretty layout alarms C03 but not C04) with C01 "
@@ -771,12 +776,16 @@ PROPS["C04"] = dict(
     level_text="Machine-checked: c04_value / c04_value_pretty (for every build, source, well-formed Value v and whitespace indent: the model "
                "serializer's output parses back to exactly v, given that the float printer/parser pair returns the floats of v), "
                "c04_value_nofloat and c04_value_ap (no float hypothesis), c04_value_all_floats (global float hypothesis), with each clause "
-               "of the representation invariant shown necessary by a counterexample. The crate's to_string/to_vec/to_writer(+pretty) "
+               "of the representation invariant shown necessary by a counterexample; c04_wf_of_parse (whatever the parser returns, from any "
+               "source in any build, satisfies the representation invariant — for &str given that the input is valid UTF-8; the finiteness "
+               "of parsed floats is the theorem c04_parsed_floats_finite, from C08's c08_finite_signed through the parser link for the "
+               "default build and from roundNE64's range for float_roundtrip), hence c04_reparse / c04_reparse_ap (serialise-then-parse "
+               "of any parsed value gives it back, across sources and formatters). The crate's to_string/to_vec/to_writer(+pretty) "
                "followed by from_str/from_slice/from_reader is run on generated Values and compared both with the original and with the "
                "Lean round trip; typed data (derived types covering the serde data model) is round-tripped through the crate.",
     level_note="Trusted: Lean kernel + 3 standard axioms; extract.py; harness/driver; the serializer and parser models (tied by C03 and "
-               "C01/C02 correspondence); itoa/ryu as parameters. Partial: typed clause by correspondence only; float step is a named "
-               "hypothesis (C07/C08).",
+               "C01/C02 correspondence); itoa/ryu as parameters. Partial: typed clause by correspondence only; the float step of the round trip "
+               "(printed text reads back as the same double) is a named hypothesis (C07/C08); finiteness of parsed floats is proved.",
 )
 
 # properties not claimed yet (kept current as checks are added)
